@@ -298,6 +298,10 @@ func (pod *Pod) PodExposedTCPConnections() *common.ConnectionSet {
 // if there is no match, returns empty string for protocol and -1 for number
 // namedPort is unique within the pod
 func (pod *Pod) ConvertPodNamedPort(namedPort string) (protocol string, portNum int32) {
+	if namedPort == "" {
+		// a container port without a name is not a port named "": an empty name matches no port
+		return "", common.NoPort
+	}
 	for _, containerPort := range pod.Ports {
 		if namedPort == containerPort.Name { // found
 			if containerPort.Protocol == "" {
